@@ -26,7 +26,7 @@ func fuzzFail(t *testing.T, c *Ctx, kind string, f *Failure, cs any) {
 }
 
 func FuzzC07(f *testing.F) {
-	for _, s := range []string{"${A:-x}", "$A ${B} $$", "${A:?${B:-err}}", "${A:+${B}}x}", "${", "$", "${A:-${B:-${C}}}", "a}b{c", "${A-}", "${_1:?}", "$$$A", "${A:-$$}"} {
+	for _, s := range []string{"${A:-x}", "$A ${B} $$", "${A:?${B:-err}}", "${A:+${B}}x}", "${", "$", "${A:-${B:-${C}}}", "a}b{c", "${A-}", "${_1:?}", "$$$A", "${A:-$$}", "\xe7${A:-\xff}\x80$", "é${B:+ü}"} {
 		f.Add(s, uint8(1))
 	}
 	c := newFuzzCtx("C07")
